@@ -119,6 +119,30 @@ pub fn gen_valid(rng: &mut Rng) -> Vec<u8> {
             sw.push(b'y');
         }
     }
+    let sw = if rng.chance(1, 5) {
+        // what real clients send: product, '_' and a release made of numbers of any size
+        let num = |rng: &mut Rng| -> String {
+            match rng.below(5) {
+                0 => rng.below(10).to_string(),
+                1 => rng.below(100).to_string(),
+                2 => rng.range(1000, 99999).to_string(),
+                3 => format!("20{:02}{:02}{:02}", rng.below(40), rng.range(1, 12), rng.range(1, 28)),
+                _ => rng.u64().to_string(),
+            }
+        };
+        let product = *rng.pick(&["OpenSSH", "paramiko", "libssh2", "dropbear", "libssh", "Build", "PuTTY_Release", "mod_sftp", "Go", "JSCH"]);
+        let mut rel = num(rng);
+        for _ in 0..rng.below(3) {
+            rel.push('.');
+            rel.push_str(&num(rng));
+        }
+        if rng.chance(1, 3) {
+            rel.push_str(*rng.pick(&["p1", "-beta", "_1", "rc2"]));
+        }
+        format!("{}_{}", product, rel).into_bytes()
+    } else {
+        sw
+    };
     o.extend_from_slice(&sw);
     if rng.chance(1, 2) {
         o.push(b' ');
